@@ -293,8 +293,15 @@ static int build_terms_t8(vnacal_new_equation_t *vnep)
 	if (!vnmp->vnm_connectivity_matrix[v_cell]) {
 	    continue;
 	}
-	assert(vnprp != NULL);
-	if (vnprp != vnp->vn_zero) {
+
+	/*
+	 * When the S matrix of the standard is only partly specified
+	 * (rectangular s_matrix), a cell that wasn't given (NULL) can
+	 * be reached here only through an off-diagonal element of V.
+	 * Treat it as zero, as the V matrix calculation does.  The
+	 * same applies to the other terms below and to U8 and UE14.
+	 */
+	if (vnprp != NULL && vnprp != vnp->vn_zero) {
 	    if (add_term(vnmp, anchors, base_coefficient + eq_row,
 			/*v_columns*/m_columns, /*negative*/true,
 			/*m*/-1, s_cell, v_cell) == -1) {
@@ -334,8 +341,7 @@ static int build_terms_t8(vnacal_new_equation_t *vnep)
 	    if (!vnmp->vnm_connectivity_matrix[v_cell]) {
 		continue;
 	    }
-	    assert(vnprp != NULL);
-	    if (vnprp != vnp->vn_zero) {
+	    if (vnprp != NULL && vnprp != vnp->vn_zero) {
 		assert(vnmp->vnm_m_matrix[m_cell] != NULL);
 		if (add_term(vnmp, anchors, base_coefficient + tx_d,
 			    /*v_columns*/m_columns, /*negative*/false,
@@ -466,8 +472,7 @@ static int build_terms_u8(vnacal_new_equation_t *vnep)
 	    if (!vnmp->vnm_connectivity_matrix[v_cell]) {
 		continue;
 	    }
-	    assert(vnprp != NULL);
-	    if (vnprp != vnp->vn_zero) {
+	    if (vnprp != NULL && vnprp != vnp->vn_zero) {
 		assert(vnmp->vnm_m_matrix[m_cell] != NULL);
 		if (add_term(vnmp, anchors, base_coefficient + ux_d,
 			    /*v_columns*/m_rows, /*negative*/true,
@@ -490,8 +495,7 @@ static int build_terms_u8(vnacal_new_equation_t *vnep)
 	if (!vnmp->vnm_connectivity_matrix[v_cell]) {
 	    continue;
 	}
-	assert(vnprp != NULL);
-	if (vnprp != vnp->vn_zero) {
+	if (vnprp != NULL && vnprp != vnp->vn_zero) {
 	    if (add_term(vnmp, anchors, base_coefficient + eq_column,
 			/*v_columns*/m_rows, /*negative*/true,
 			/*m*/-1, s_cell, v_cell) == -1) {
@@ -848,8 +852,7 @@ static int build_terms_ue14(vnacal_new_equation_t *vnep)
 	    if (!vnmp->vnm_connectivity_matrix[v_cell]) {
 		continue;
 	    }
-	    assert(vnprp != NULL);
-	    if (vnprp != vnp->vn_zero) {
+	    if (vnprp != NULL && vnprp != vnp->vn_zero) {
 		assert(vnmp->vnm_m_matrix[m_cell] != NULL);
 		if (add_term(vnmp, anchors, base_coefficient + ux_d,
 			    /*v_columns*/m_rows, /*negative*/true,
@@ -873,8 +876,7 @@ static int build_terms_ue14(vnacal_new_equation_t *vnep)
 	if (!vnmp->vnm_connectivity_matrix[v_cell]) {
 	    continue;
 	}
-	assert(vnprp != NULL);
-	if (vnprp != vnp->vn_zero) {
+	if (vnprp != NULL && vnprp != vnp->vn_zero) {
 	    if (add_term(vnmp, anchors, base_coefficient,
 			/*v_columns*/m_rows, /*negative*/true,
 			/*m*/-1, s_cell, v_cell) == -1) {
